@@ -23,7 +23,16 @@ func (m *Mutex) Lock() {
 		shim.WaitOn(m)
 	}
 }
-func (m *Mutex) Unlock()       { shim.Point("unlock"); m.m.Unlock(); shim.Released(m) }
+
+// Unlock has a scheduling point on either side: before (the critical section may be preempted
+// at its end) and after (code that goes on to use shared data after giving up the lock must
+// meet the threads it has just admitted).
+func (m *Mutex) Unlock() {
+	shim.Point("unlock")
+	m.m.Unlock()
+	shim.Released(m)
+	shim.Point("unlocked")
+}
 func (m *Mutex) TryLock() bool { shim.Point("trylock"); return m.m.TryLock() }
 
 type RWMutex struct{ m rsync.RWMutex }
@@ -38,7 +47,12 @@ func (m *RWMutex) Lock() {
 		shim.WaitOn(m)
 	}
 }
-func (m *RWMutex) Unlock() { shim.Point("wunlock"); m.m.Unlock(); shim.Released(m) }
+func (m *RWMutex) Unlock() {
+	shim.Point("wunlock")
+	m.m.Unlock()
+	shim.Released(m)
+	shim.Point("wunlocked")
+}
 func (m *RWMutex) RLock() {
 	if shim.S == nil {
 		m.m.RLock()
@@ -60,3 +74,82 @@ func (w *WaitGroup) Wait()     { shim.Point("wg-wait"); w.w.Wait(); shim.Point("
 type Once struct{ o rsync.Once }
 
 func (o *Once) Do(f func()) { shim.Point("once"); o.o.Do(f) }
+
+func (m *RWMutex) TryLock() bool  { shim.Point("trywlock"); return m.m.TryLock() }
+func (m *RWMutex) TryRLock() bool { shim.Point("tryrlock"); return m.m.TryRLock() }
+
+type rlocker RWMutex
+
+func (r *rlocker) Lock()   { (*RWMutex)(r).RLock() }
+func (r *rlocker) Unlock() { (*RWMutex)(r).RUnlock() }
+
+// RLocker returns a Locker whose Lock and Unlock call RLock and RUnlock.
+func (m *RWMutex) RLocker() Locker { return (*rlocker)(m) }
+
+// Cond is a condition variable over the shim's locks: waiting parks the thread until the next
+// Signal or Broadcast (a Signal wakes every waiter: callers of Wait loop on their condition).
+type Cond struct {
+	L   Locker
+	c   *rsync.Cond
+	mu  rsync.Mutex
+	gen uint64
+}
+
+func NewCond(l Locker) *Cond { return &Cond{L: l, c: rsync.NewCond(l)} }
+
+func (c *Cond) Wait() {
+	if shim.S == nil {
+		c.c.Wait()
+		return
+	}
+	c.mu.Lock()
+	gen := c.gen
+	c.mu.Unlock()
+	c.L.Unlock()
+	for {
+		c.mu.Lock()
+		moved := c.gen != gen
+		c.mu.Unlock()
+		if moved {
+			break
+		}
+		shim.WaitOn(c)
+	}
+	c.L.Lock()
+}
+
+func (c *Cond) wake() {
+	c.mu.Lock()
+	c.gen++
+	c.mu.Unlock()
+	shim.Released(c)
+}
+func (c *Cond) Signal() {
+	shim.Point("cond-signal")
+	if shim.S == nil {
+		c.c.Signal()
+		return
+	}
+	c.wake()
+}
+func (c *Cond) Broadcast() {
+	shim.Point("cond-broadcast")
+	if shim.S == nil {
+		c.c.Broadcast()
+		return
+	}
+	c.wake()
+}
+
+func OnceFunc(f func()) func() {
+	g := rsync.OnceFunc(f)
+	return func() { shim.Point("once"); g() }
+}
+func OnceValue[T any](f func() T) func() T {
+	g := rsync.OnceValue(f)
+	return func() T { shim.Point("once"); return g() }
+}
+func OnceValues[T1, T2 any](f func() (T1, T2)) func() (T1, T2) {
+	g := rsync.OnceValues(f)
+	return func() (T1, T2) { shim.Point("once"); return g() }
+}
